@@ -118,6 +118,9 @@ def init_of(p):
 
 def run_case(case):
     parts = case["parts"]
+    if known.active("three-same-signal-sources") and any(lang.same_type_fanin(p) for p in parts):
+        # open finding F-three-same: such a part is wired wrongly on its own, and differently in every layout
+        return {"discard": "excluded:F-three-same", "counters": {"excluded_by:F-three-same": 1}}
     whole = compose(parts, case["order"])
     opt = case.get("optimize", True)
     text, rw = twin.build(whole, {}, opt, case.get("sched"))
